@@ -1,6 +1,10 @@
 import LyModel.Props.C05Fn
+import LyModel.Props.C05FnJson
 #print axioms LyModel.Props.C05Fn.gen_utf8_are_model
 #print axioms LyModel.Props.C05Fn.gen_getutf8_stops_at_nul
 #print axioms LyModel.Props.C05Fn.gen_pututf8_in_bounds
 #print axioms LyModel.Bridge.Utf8.getutf8_eq
 #print axioms LyModel.Bridge.Utf8.pututf8_eq
+#print axioms LyModel.Props.C05FnJson.gen_json_u_is_model
+#print axioms LyModel.Props.C05FnJson.gen_json_u_stops_at_nul
+#print axioms LyModel.Bridge.JsonU.u_eq
